@@ -262,8 +262,8 @@ class Cross:
 PROPS = {}
 
 
-def prop(pid, level, rule, assumptions, legs, real_vs_stub, cross=None, streams=None, selftest=False, miri=False):
-    PROPS[pid] = dict(level=level, rule=rule, assumptions=assumptions, legs=legs, real_vs_stub=real_vs_stub, cross=cross or [], streams=streams or [], selftest=selftest, miri=miri)
+def prop(pid, level, rule, assumptions, legs, real_vs_stub, cross=None, streams=None, selftest=False, miri=False, miri_mem=False):
+    PROPS[pid] = dict(level=level, rule=rule, assumptions=assumptions, legs=legs, real_vs_stub=real_vs_stub, cross=cross or [], streams=streams or [], selftest=selftest, miri=miri, miri_mem=miri_mem)
 
 
 REAL = "real code: every algorithm, buffer and dispatch path of the crates under /repo, built from the working tree"
@@ -425,7 +425,7 @@ prop(
     [
         "guard pages detect an access that crosses the slice end placed at a page edge (hence every operation runs in both edge placements); an out-of-bounds access that stays inside the mapped page is visible only as a changed canary (writes) or not at all (reads)",
         "data contents, keys and nonces are sampled, placements/alignments/length residues are enumerated",
-        "x86 vector code cannot run under Miri (cfg(miri) selects the portable backend); the optional Miri pass is described in DESIGN.md",
+        "second pass under Miri (byte-granular bounds + symbolic alignment checking on exact-size allocations) covers what guard pages cannot see; x86 vector code cannot run under Miri (cfg(miri) selects the portable backend), so that pass covers the backend-independent code, the portable backend and Groestl",
     ],
     [
         Leg("std", "release", "mem", "C16enum", -1, -1, max_ops=192, sharded=True),
@@ -435,7 +435,8 @@ prop(
         Leg("portable", "release", "mem", "C16enum", -1, -1, max_ops=192, sharded=True),
         Leg("portable", "release", "mem", "C16", 0, 300000, max_ops=40, sharded=True),
     ],
-    [REAL, STUB],
+    [REAL, STUB + "; second pass: Miri interprets the real crates (portable SIMD backend, Groestl on AES-NI shims) with every slice an exact-size allocation"],
+    miri_mem=True,
 )
 
 
@@ -513,9 +514,9 @@ prop(
         "layer (a) interleaves at call granularity (a single-threaded caller cannot be preempted inside a call)",
     ],
     [
-        Leg("std", "release", "interleave", "C18", 20000, 600000, max_ops=60),
-        Leg("std", "checked", "interleave", "C18", 10000, 300000, max_ops=60),
-        Leg("portable", "checked", "interleave", "C18", 0, 150000, max_ops=60),
+        Leg("std", "release", "interleave", "C18", 20000, 600000, max_ops=60, sharded=True),
+        Leg("std", "checked", "interleave", "C18", 10000, 300000, max_ops=60, sharded=True),
+        Leg("portable", "checked", "interleave", "C18", 0, 150000, max_ops=60, sharded=True),
     ],
     [REAL, STUB + "; Miri interprets the real crates (portable SIMD backend)"],
     miri=True,
@@ -644,6 +645,13 @@ def run_property(pid, tier):
             run_streams(pid, spec["streams"], tier, sd, replay_dir, stream_results, violations, known)
         except HarnessError as e:
             harness_error = str(e)
+    mem_results = []
+    mem_total = 0
+    if spec.get("miri_mem") and not harness_error:
+        try:
+            mem_total = run_miri_mem_layer(pid, tier, sd, replay_dir, mem_results, violations, known)
+        except HarnessError as e:
+            harness_error = str(e)
     miri_results = []
     miri_total = 0
     if spec.get("miri") and not harness_error:
@@ -662,7 +670,7 @@ def run_property(pid, tier):
                                           workloads=miri_results))
         total_runs += miri_total
     if enumerated:
-        extra = dict(enumerated_completely=enumerated, exhaustive=True,
+        extra = dict(miri_exact_allocation_pass=mem_results, enumerated_completely=enumerated, exhaustive=True,
                      exhaustive_scope="placement x start alignment/length residue (3 x 64) for every (operation kind, prefix class, length class, host level) combination; data contents are sampled")
     return finish(pid, tier, sd, spec, wall, total_runs, total_ops, states, counters, notes, samples, legs_out, violations, known, others, harness_error, extra)
 
@@ -733,6 +741,71 @@ def classify_miri(out):
 
 
 NW = 62
+
+
+def miri_mem_run(base, parts, seed_lo, seed_hi, part=None):
+    bdir, mpath, tag = miri_dirs()
+    env = dict(os.environ)
+    env["RUSTFLAGS"] = MIRI_RUSTFLAGS
+    env["CARGO_NET_OFFLINE"] = "true"
+    env["CARGO_TARGET_DIR"] = os.path.join(VERIF, "target", tag)
+    flags = "-Zmiri-symbolic-alignment-check"
+    if seed_hi - seed_lo == 1:
+        env["MIRIFLAGS"] = "-Zmiri-seed=%d %s" % (seed_lo, flags)
+    else:
+        env["MIRIFLAGS"] = "-Zmiri-many-seeds=%d..%d %s" % (seed_lo, seed_hi, flags)
+    cmd = ["cargo", "+nightly", "miri", "run", "--offline", "--quiet", "--manifest-path", mpath, "--", "mem", str(base), str(parts)]
+    if part is not None:
+        cmd.append(str(part))
+    p = subprocess.run(cmd, env=env, cwd=bdir, stdout=subprocess.PIPE, stderr=subprocess.STDOUT, text=True)
+    return p.returncode, p.stdout
+
+
+def run_miri_mem_layer(pid, tier, sd, replay_dir, results, violations, known):
+    """S5 second pass: every slice argument is an exact-size allocation of its own; Miri's byte-granular bounds and
+    alignment checking sees what guard pages cannot (an out-of-slice read, or write of the same value, inside a mapped page)."""
+    import re
+    base = (sd * 2654435761) & 0xFFFFFFFF
+    parts, nseeds = (8, 16) if tier == "quick" else (4, 32)
+    lo = (sd * 104729) % 100000
+    t0 = time.time()
+    rc, out = miri_mem_run(base, parts, lo, lo + nseeds)
+    covered = sorted(set(int(m.group(1)) for m in re.finditer(r"MEM part=(\d+) of", out)))
+    results.append(dict(base_seed=base, parts=parts, parts_covered=covered, miri_seeds=[lo, lo + nseeds], operations_in_list=77 + 144 + 2, ok=(rc == 0), wall_s=round(time.time() - t0, 1),
+                        flags="-Zmiri-symbolic-alignment-check", what="apply_keystream x7 ciphers (11 prefix/length pairs), update + finalize_into x16 hash types (9 pairs), Threefish x3, block-API refill/refill4; every key, nonce, message, block and output is an exact-size allocation of its own"))
+    log("[%s] miri memory pass: seeds %d..%d, parts covered %s of %d: %s" % (pid, lo, lo + nseeds, covered, parts, "ok" if rc == 0 else "FAILED"))
+    if rc == 0:
+        return nseeds
+    failing = None
+    for s_ in range(lo, lo + nseeds):
+        rc1, out1 = miri_mem_run(base, parts, s_, s_ + 1)
+        if rc1 != 0:
+            failing = (s_, out1)
+            break
+    if failing is None:
+        raise HarnessError("Miri memory-pass failure did not reproduce with a single seed:\n" + out[-2000:])
+    s_, out1 = failing
+    if "out-of-bounds" in out1 or "dangling" in out1 or "alloc" in out1 and "Undefined Behavior" in out1:
+        what = "access outside the caller's slice"
+    elif "alignment" in out1:
+        what = "misaligned access"
+    elif "panicked" in out1:
+        what = "panic"
+    else:
+        what = "undefined behaviour"
+    tail = "\n".join(l for l in out1.splitlines() if l.strip())[-1800:]
+    sig = "exact-size allocations under Miri:%s" % what
+    f = dict(kind="miri_mem", base_seed=base, parts=parts, miri_seed=s_, ops=[], minimised_from=1,
+             violation=dict(properties=[pid], invariant="M3", signature=sig, at_op=0, detail="Miri seed %d: %s\n%s" % (s_, what, tail)))
+    path = os.path.join(replay_dir, "%s-mirimem-%d-%d.json" % (pid, base, s_))
+    json.dump(f, open(path, "w"))
+    f["replay"] = path
+    kf = open_finding_for(pid, sig)
+    if kf:
+        known.append((kf, f))
+    else:
+        violations.append(f)
+    return nseeds
 
 
 def run_miri_layer(pid, tier, sd, replay_dir, results, violations, known, others):
@@ -1017,6 +1090,18 @@ def replay(pid, path):
             print("  (batch prefix of %d runs) %s" % (b["runs"], same[0]["violation"]["detail"]))
             return 1
         print("OK replay: the batch prefix passes on this tree")
+        return 0
+    if j.get("kind") == "miri_mem":
+        rc, out = miri_mem_run(j["base_seed"], j["parts"], j["miri_seed"], j["miri_seed"] + 1)
+        if rc != 0:
+            kf = open_finding_for(pid, j["violation"]["signature"])
+            if kf:
+                print("KNOWN-FINDING: property=%s %s" % (pid, kf.get("what")))
+                return 0
+            print("VIOLATION property=%s replay=%s" % (pid, path))
+            print("  " + "\n  ".join(l for l in out.splitlines() if "error" in l or "Undefined" in l)[:600])
+            return 1
+        print("OK replay: the Miri memory pass of seed %d is clean on this tree" % j["miri_seed"])
         return 0
     if j.get("kind") == "miri":
         rc, out = miri_run(j["base_seed"], j["workloads"], j["table"], j["miri_seed"], j["miri_seed"] + 1, j["preemption_rate"])
